@@ -171,6 +171,7 @@ fn check(case: &Case, st: &mut Stats) -> Vec<Violation> {
                 st.probe("filtered_frame_seen");
             } else if c.accepted && c.judged {
                 let a = c.addr.unwrap();
+                for (b, _) in model.last.iter() { if model.maybe_stale(*b, s.t_us) { ever_stale.insert(*b); } }
                 model.accept(a, s.t_us);
                 touched.push(a);
                 applied_addrs.insert(a);
